@@ -316,6 +316,11 @@ class WildGen:
         if op in ('()', '[]'):
             return S.Op(op, self.ret() if r.random() < 0.5 else self.type(), (S.Arg(self.type(), self.ident()),))
         this = self.in_class and r.random() < 0.3       # the class itself, spelled This (replaced in every instantiation)
+        if r.random() < 0.15:
+            # a unary operator whose result type needs instantiation although it has no operand
+            rt = S.T('This') if (self.in_class and r.random() < 0.6) else \
+                (S.T(r.choice(self.scope_params)) if self.scope_params else same)
+            return S.Op(r.choice('+-'), rt, ())
         if op in '+-' and r.random() < 0.3:
             return S.Op(op, S.T('This') if this else same, ())
         if this:
